@@ -265,12 +265,45 @@ func TestReplayOSFS(t *testing.T)    { vf.Replay(t, "osfs", replay("osfs")) }
 
 var _ = path.Join
 
+// knownSig maps a situation to the canonical signature of an active known finding ("" if none).
 func knownSig(kind, situation string) string {
-	k := "C01/" + kind + " " + situation
-	if vf.Known(k) {
-		return k
+	if kind == "osfs" {
+		return ""
+	}
+	for _, k := range knownMap {
+		if k.match(situation) && vf.Known(k.sig) {
+			return k.sig
+		}
 	}
 	return ""
 }
 
-func registerProbes() {}
+type knownDef struct {
+	sig   string
+	match func(situation string) bool
+	probe func(fs hackpadfs.FS) (bool, string)
+}
+
+var knownMap = []knownDef{
+	{
+		sig: "C01:readfile-directory",
+		match: func(s string) bool {
+			return s == "readfile:root" || strings.HasPrefix(s, "readfile:dir")
+		},
+		probe: func(fs hackpadfs.FS) (bool, string) {
+			b, err := hackpadfs.ReadFile(fs, ".")
+			return err == nil, fmt.Sprintf("ReadFile(\".\") = %q, %v", b, err)
+		},
+	},
+}
+
+func registerProbes() {
+	for _, k := range knownMap {
+		k := k
+		vf.RegisterProbe(k.sig, func() (bool, string) {
+			s := newSubject("mem")
+			defer s.close()
+			return k.probe(s.fs)
+		})
+	}
+}
